@@ -74,6 +74,15 @@ def check_graph(succs):
             sg = dom.strictly_dominates(blocks[a], blocks[b])
             if sg != (exp and a != b):
                 return {"graph": succs, "a": a, "b": b, "strictly_dominates(a,b)": sg, "expected": exp and a != b, "key": "C24/strict-dominance"}
+            # the public module-level entry point (builds its own table)
+            from xdsl.irdl.dominance import strictly_dominates
+
+            try:
+                pg = strictly_dominates(blocks[a], blocks[b])
+            except Exception as e:  # noqa: BLE001
+                return {"graph": succs, "a": a, "b": b, "module-level strictly_dominates raised": repr(e), "key": "C24/strict-dominance"}
+            if pg != (exp and a != b):
+                return {"graph": succs, "a": a, "b": b, "module-level strictly_dominates(a,b)": pg, "expected": exp and a != b, "key": "C24/strict-dominance"}
     order = [blocks.index(x) for x in PostOrderIterator(blocks[0])]
     if sorted(order) != sorted(reachable) or len(set(order)) != len(order):
         return {"graph": succs, "post-order": order, "reachable": sorted(reachable), "why": "not exactly the reachable blocks, each once", "key": "C24/post-order"}
